@@ -16,7 +16,8 @@ RULE = ("(a) round trips S->T->S through the CLI for all ordered pairs of {ymd,y
         "representation; (c) values handed to the formatter by dseq/dadd/dround must print like "
         "the same day given to dconv as ymd. Non-trivial: pairs S!=T on boundary days; "
         "(specifier, predecessor set) with a non-empty predecessor set; tool-produced values on "
-        "boundary days")
+        "boundary days"
+        " (c') values a tool has MOVED (dadd month/year/week/business-day steps, dround to weekdays, months, days of the month, ISO weeks): all specifiers of the output line describe the day its %F field names; weekday specifiers of Hijri-held values.")
 ASSUMPTIONS = ["reference day for a text is vf/refcal.py", "ummulqura oracle = own parser of data/ummulqura.tab"]
 
 SPECS = SP.DATE_SPECS
